@@ -981,8 +981,14 @@ class _Visitor(ast.NodeVisitor):
     def __init__(self, ctx: Context) -> None:
         self.ctx = ctx
 
-    def generic_visit(self, node: ast.AST) -> None:
-        raise NotImplementedError(f"no visitor implemented for {node!r}")
+    def generic_visit(self, node: ast.AST) -> Value:
+        # Any other expression (a starred element, a slice, a lambda, a comparison,
+        # an f-string, ...) is not a type: report it instead of aborting the check of
+        # the enclosing statement with an internal error.
+        self.ctx.show_error(
+            f"Unsupported syntax in annotation: {type(node).__name__}"
+        )
+        return AnyValue(AnySource.error)
 
     def visit_Name(self, node: ast.Name) -> Value:
         return self.ctx.get_name(node)
